@@ -82,6 +82,20 @@ PLANS['C19'] = {
     'level_text': 'TLC proves on every reachable object (all key sequences over the alphabet incl. duplicates and case variants, both variants) that the transcribed merge sort yields a sorted permutation of the same member nodes with intact sibling links and is idempotent, and explores all edits after a sort; the real code is driven through the same transitions and every link of the resulting heap is compared.',
     'level_note': TREE_NOTE,
 }
+def cmp_run(name, tier):
+    return {'name': name, 'module': 'MC_Compare', 'mode': 'cmp', 'invariants': ['Reflexive'],
+            'constants': {'Tier': '"%s"' % tier, 'Emit': 'TRUE'}, 'timeout': 3000}
+PLANS['C12'] = {
+    'quick': [cmp_run('pairsQ', 'quick')],
+    'thorough': [cmp_run('pairsT', 'thorough')],
+    'rule': 'all ordered pairs (a, b, case flag) over a finite universe of values (all scalars incl. boundary numbers, all containers of width <= 2 '
+            'over them with keys a/A/b, nested containers in thorough); non-trivial = every pair (each is compared in both orders and with ownership flags toggled); distinct by construction',
+    'assumptions': ['objects have distinct keys (distinct after case folding when comparing case-insensitively), as the property states',
+                    'number equality is tabulated in NumCatalogue (exact rational arithmetic) for a catalogue of boundary doubles'],
+    'technique': 'TLC checks the transcription of cJSON_Compare against declarative semantic equality on all pairs of a value universe (plus symmetry, reflexivity); every pair replayed on the real cJSON_Compare in both orders, flags toggled, arguments fingerprinted',
+    'level_text': 'C12 is a function over pairs of values; TLC enumerates all pairs of a finite universe exhaustively and proves transcription = declarative equality, and the real function is evaluated on exactly these pairs (both orders, three ownership-flag variants, NULL/invalid arguments) with results compared and arguments checked untouched.',
+    'level_note': 'bounded universe (width <= 2, depth <= 2, 16 catalogue numbers incl. inf/nan/epsilon neighbours); NumEq table computed by tools/numcat.py; TLC and the driver are trusted',
+}
 NOT_CLAIMED = {}
 
 
